@@ -88,7 +88,7 @@ def run(pid, tier, replay=None):
         ck.part("random_queue_histories", histories=nh, steps_each=no, events_accepted=rn)
     missing = [LOPS[i] for i in range(1, 17) if opc["list"][i] == 0] + [SOPS[i] for i in range(1, 8) if opc["slist"][i] == 0] + \
               [QOPS[i] for i in range(1, 18) if opc["que"][i] == 0]
-    if missing:
+    if missing and not ck.violations:      # (a crashed replay has its own violation; its counters are empty)
         raise Broken("vacuity: operations never exercised: %s" % missing)
     ck.cov["rule"] = ("every transition of the TLC state graphs of List (K nodes on two heads, all ring configurations and detached chains), Slist (K nodes, two lists) "
                       "and Que (two queues, sequences over 3 (key,tag) values, pool sizes, element sizes; long single-value configuration crossing the 8-slot pool growth) "
